@@ -178,9 +178,13 @@ PLANS = {
                 mc=[MC("MCMerger", "MCMerger.cfg", workers=8)],
                 gen=[G("merge", 400, 15000, "TraceMerger", "TraceMerger.cfg")]),
     "C07": dict(level="model_checking", assumptions=TRUST + ["hook H2 lowers the minimum budget / initial capacity for the small-scale runs; rayon schedules are sampled (pool sizes), not enumerated"],
+                mc=[MC("MCSorter", "MCSorter_content.cfg", workers=8), MC("MCSorter", "MCSorter_content1.cfg", workers=8)],
                 gen=[G("sorter", 320, 12000, "TraceSorter", "TraceSorter_C07.cfg"),
                      G("sorter_real", 4, 48, "TraceSorter", "TraceSorter_C07.cfg")]),
     "C08": dict(level="model_checking", assumptions=TRUST + ["hook H2 lowers the minimum budget / initial capacity for the small-scale runs"],
+                mc=[MC("MCSorter", "MCSorter_acct_realloc.cfg", workers=4), MC("MCSorter", "MCSorter_acct_fixed.cfg", workers=4),
+                    MC("MCSorter", "MCSorter_acct_1700.cfg", workers=4),
+                    MC("MCSorter", "MCSorter_acct_usedbytes.cfg", workers=4, expect="fail:VolumeBound")],
                 gen=[G("spill", 160, 4000, "TraceSorter", "TraceSorter_C08.cfg"),
                      G("sorter_real", 12, 96, "TraceSorter", "TraceSorter_C08.cfg")]),
     "C09": dict(level="model_checking", assumptions=TRUST + ["independent decoder: sequential walk, codec crates, LEB128 framing parser"],
@@ -222,7 +226,10 @@ PLANS = {
                 gen=[G("cut", 300, 10000, "TraceLayout", "TraceLayout_C15.cfg")]),
     "C17": dict(level="other", explanation="Partial: decides the allocation protocol (layout equality, guard words, double free, leak of the sorter buffer class), the sorter's two-ended buffer bookkeeping (hook H2) and arithmetic overflow (checked build) on executions of the real code, validated by TLC against Alloc.tla. Out-of-bounds READS, use of freed memory through a lifetime-extended reference, alignment and provenance violations leave no trace in these events and are NOT decided (needs Miri/ASan, a different technique family).",
                 assumptions=TRUST + ["monitoring global allocator of the harness process (header + canaries per block)", "hook H2 exposes the sorter's buffer accounting", "overflow checks of the dev-profile build"],
+                mc=[MC("MCSorter", "MCSorter_acct_realloc.cfg", workers=4), MC("MCSorter", "MCSorter_acct_fixed.cfg", workers=4),
+                    MC("MCSorter", "MCSorter_acct_big.cfg", workers=4)],
                 gen=[G("alloc", 240, 8000, "TraceAlloc", "TraceAlloc.cfg"),
+                     G("alloc", 60, 1000, "TraceSorterB", "TraceSorterB.cfg", drift=True),
                      G("alloc_readers", 40, 1200, "TraceAlloc", "TraceAlloc.cfg")]),
     "C18": dict(level="model_checking", assumptions=TRUST + ["independent decoder: sequential walk, codec crates, LEB128 framing parser"],
                 mc=[MC("MCWriter", "MCWriter_unsorted.cfg", workers=8)],
